@@ -18,6 +18,8 @@ type Layout struct {
 	// (lines longer than the 64 KiB default buffers of line readers)
 	Long     int
 	longDone bool
+	// Mixed: every line end is drawn separately (LF or CRLF): files edited on two platforms
+	Mixed bool
 	// positions
 	Pos map[string][2]int // key -> line, col (0-based) of name occurrences
 }
@@ -85,11 +87,7 @@ func (l *Layout) eol() {
 		case 2:
 			l.w(" # c")
 		}
-		if l.CRLF {
-			l.w("\r\n")
-		} else {
-			l.w("\n")
-		}
+		l.eolBare()
 		return
 	}
 	if l.Wild && l.pick(6) == 0 {
@@ -98,11 +96,7 @@ func (l *Layout) eol() {
 	if l.Comments && l.pick(5) == 0 {
 		l.w(" # " + []string{"trailing", "type x", "define y: [z]", "# more", "", "condition c(x: int) {"}[l.pick(6)])
 	}
-	if l.CRLF {
-		l.w("\r\n")
-	} else {
-		l.w("\n")
-	}
+	l.eolBare()
 }
 
 // newline(s) followed by indentation for a code line
@@ -145,6 +139,14 @@ func (l *Layout) nl(indent string) {
 	l.w(indent)
 }
 func (l *Layout) eolBare() {
+	if l.Mixed {
+		if l.pick(2) == 0 {
+			l.w("\r\n")
+		} else {
+			l.w("\n")
+		}
+		return
+	}
 	if l.CRLF {
 		l.w("\r\n")
 	} else {
